@@ -77,6 +77,11 @@ TEMPLATES = [
     "d = {H}\nsleep(d)", "p = {H}\nled2 = Led(p)", "n = {H}\nfor i in range(n):\n    led.on()", "b = {H}\nled.set_brightness(b)", "t = {H}\nlcd.line(0, t)",
     "v = {H}\nw = v\nmon.write(w)", "def rec(x):\n    return rec([x])\ny = rec({H})", "def rec2(x):\n    return rec2(x + 0.5)\ny = rec2(1)",
     "def a1(x):\n    return b1(x)\ndef b1(x):\n    return a1(str(x))\nq = a1({H})", "x = " + " + ".join(["1"] * 3000), "x = " + "(" * 200 + "1" + ")" * 200, "x = " + "-" * 500 + "1",
+    # user identifiers that coincide with names the transpiler uses internally or in the sketch
+    "_helpers = {H}\nzz = [1, 2]\nmon.write(len(zz))", "_helpers = 5\nzz = [1, 2]\nzz.append(_helpers)\nmon.write(zz[0])", "def fh(_helpers):\n    qq = [_helpers, 1]\n    return len(qq)\nmon.write(fh(3))",
+    "for _helpers in range(2):\n    zz = [1, _helpers]\n    mon.write(zz[1])", "_ctx = {H}\nzz = [1]\nmon.write(len(zz))", "_defined_functions = 1\ndef sum(a, b):\n    return a + b\nmon.write(sum(1, 2))",
+    "__tmp_assign_0 = 1\na7 = 2\nb7 = 3\na7, b7 = b7, a7\nmon.write(__tmp_assign_0)", "__redu_len = 3\nmon.write(len(items))", "setup = 1\nloop = 2\nmon.write(setup + loop)", "String = 1\nmon.write(str(String))",
+    "delay = 5\nsleep(delay)", "Serial = 3\nmon.write(Serial)", "__state_led = 9\nled.toggle()\nmon.write(__state_led)", "int = 3\nfloat = 2\nmon.write(int + float)", "x = 1\ndef x():\n    return 2\nmon.write(x())",
     "target('~/dev/arduino-uno')", 'target("~root/tty")', "target('$HOME/port')", 'target("%USERPROFILE%/p", upload=False)', "target('~')\nx = {H}", "target(port='~/x')",
     "x = abs({H})", "x = max({H}, {H})", "x = int({H})", "x = str({H})", "x = h({H})", "a, b, c = 1, {H}", "mon.write(value={H})", "x = y = {H}",
 ]
